@@ -8,6 +8,7 @@ import (
 	"encoding/json"
 	"fmt"
 	"net/netip"
+	"strings"
 	"testing"
 
 	"github.com/osrg/gobgp/v4/internal/pkg/verifgen"
@@ -157,6 +158,10 @@ func addPathOn(o *bgp.MarshallingOption, f bgp.Family) bool {
 	return o != nil && o.AddPath != nil && o.AddPath[f]&bgp.BGP_ADD_PATH_SEND != 0
 }
 
+// walkLenient: when walking bytes that were received rather than constructed, the unused flag
+// bits "MUST be ignored when received" (RFC 4271 4.3) and are not a framing error.
+var walkLenient = false
+
 func walkMessage(b []byte, o *bgp.MarshallingOption) (*walked, error) {
 	if len(b) < 19 {
 		return nil, fmt.Errorf("short header")
@@ -198,9 +203,6 @@ func walkMessage(b []byte, o *bgp.MarshallingOption) (*walked, error) {
 	case bgp.BGP_MSG_OPEN:
 		if len(body) < 10 {
 			return nil, fmt.Errorf("OPEN body of %d octets", len(body))
-		}
-		if body[0] != 4 {
-			return nil, fmt.Errorf("OPEN version %d", body[0])
 		}
 		pl := int(body[9])
 		if 10+pl != len(body) {
@@ -254,7 +256,7 @@ func walkMessage(b []byte, o *bgp.MarshallingOption) (*walked, error) {
 			} else {
 				a.vlen = int(attrs[2])
 			}
-			if a.flags&0x0f != 0 {
+			if a.flags&0x0f != 0 && !walkLenient {
 				return nil, fmt.Errorf("attribute %d has reserved flag bits set (%#x)", a.typ, a.flags)
 			}
 			if a.hdr+a.vlen > len(attrs) {
@@ -441,9 +443,19 @@ func checkElements(m *bgp.BGPMessage, o *bgp.MarshallingOption, st *verifkit.Sta
 		if n.Len(o) != len(nb) {
 			return verifkit.Failf("nlri-len", "%s NLRI %s: Len()=%d but emits %d octets", f, n, n.Len(o), len(nb))
 		}
-		n2, err := bgp.NLRIFromSlice(f, append(append([]byte{}, nb...), sentinel...), o)
+		tail := sentinel
+		if f == bgp.RF_OPAQUE {
+			// gobgp's own key/value family has no framing for the value: by design the NLRI extends
+			// to the end of the attribute, so it is only decoded on its own
+			tail = nil
+		}
+		n2, err := bgp.NLRIFromSlice(f, append(append([]byte{}, nb...), tail...), o)
 		if err != nil {
 			return verifkit.Failf("nlri-decode", "%s NLRI %s (%x) followed by other data does not decode: %v", f, n, nb, err)
+		}
+		if n2.Len(o) != len(nb) && (f == bgp.RF_IPv4_ENCAP || f == bgp.RF_IPv6_ENCAP) &&
+			st.KnownHit("codec-encap-nlri-multi", fmt.Sprintf("%s NLRI %s followed by other data: decoder consumed %d of %d octets", f, n, n2.Len(o), len(nb))) {
+			return nil
 		}
 		if n2.Len(o) != len(nb) {
 			return verifkit.Failf("nlri-consume", "%s NLRI %s (%x): decoder consumed %d of %d octets", f, n, nb, n2.Len(o), len(nb))
@@ -475,11 +487,11 @@ func checkElements(m *bgp.BGPMessage, o *bgp.MarshallingOption, st *verifkit.Sta
 			sig := "attr-len"
 			switch v := a.(type) {
 			case *bgp.PathAttributeMpReachNLRI:
-				if addPathOn(o, bgp.NewFamily(v.AFI, v.SAFI)) && a.Len(o)+4*len(v.Value) == len(ab) {
+				if addPathOn(o, bgp.NewFamily(v.AFI, v.SAFI)) && mpLenOffByPathIDs(a.Len(o), len(ab), len(v.Value)) {
 					sig = "attr-len-mp-addpath"
 				}
 			case *bgp.PathAttributeMpUnreachNLRI:
-				if addPathOn(o, bgp.NewFamily(v.AFI, v.SAFI)) && a.Len(o)+4*len(v.Value) == len(ab) {
+				if addPathOn(o, bgp.NewFamily(v.AFI, v.SAFI)) && mpLenOffByPathIDs(a.Len(o), len(ab), len(v.Value)) {
 					sig = "attr-len-mp-addpath"
 				}
 			}
@@ -520,6 +532,13 @@ func checkElements(m *bgp.BGPMessage, o *bgp.MarshallingOption, st *verifkit.Sta
 	return nil
 }
 
+// mpLenOffByPathIDs: Len() misses exactly the 4-octet path identifiers (plus the extra header
+// octet when that pushes the value past 255 octets).
+func mpLenOffByPathIDs(reported, emitted, n int) bool {
+	d := emitted - reported
+	return d == 4*n || (d == 4*n+1 && reported-3 <= 255 && emitted-4 > 255)
+}
+
 func onlyCore(fams []bgp.Family) bool {
 	for _, f := range fams {
 		if !verifgen.IsCoreFamily(f) {
@@ -529,21 +548,19 @@ func onlyCore(fams []bgp.Family) bool {
 	return true
 }
 
-func runC04(c recipeCase, st *verifkit.Stats) *verifkit.Failure {
-	s := verifgen.NewSrc(c.Recipe)
-	m, fams := verifgen.Message(s)
-	o := verifgen.Options(s, fams...)
-	verifgen.NormalisePathIDs(m, o)
+// checkMessage runs every C04 oracle on one constructed message; it returns the wire bytes
+// (nil when the message legitimately exceeds the session maximum).
+func checkMessage(m *bgp.BGPMessage, o *bgp.MarshallingOption, st *verifkit.Stats) ([]byte, *verifkit.Failure) {
 	nt, kind := nontrivialMsg(m)
 	st.Label("msg-" + kind)
-	st.Label("opt-" + verifgen.OptString(o)[:0] + fmt.Sprintf("ext=%v", o.ExtendedMessage))
+	st.Label(fmt.Sprintf("opt-ext=%v", o.ExtendedMessage))
 
 	if f := checkElements(m, o, st); f != nil {
-		return f
+		return nil, f
 	}
 	body, err := m.Body.Serialize(o)
 	if err != nil {
-		return verifkit.Failf("body-serialize", "%s body does not serialise: %v\n%s", kind, err, jsonOf(m))
+		return nil, verifkit.Failf("body-serialize", "%s body does not serialise: %v\n%s", kind, err, jsonOf(m))
 	}
 	m.Header.Len = 0
 	wire, err := m.Serialize(o)
@@ -551,41 +568,71 @@ func runC04(c recipeCase, st *verifkit.Stats) *verifkit.Failure {
 	if 19+len(body) > limit {
 		st.Label("over-limit")
 		if err == nil {
-			return verifkit.Failf("oversize-emitted", "%s of %d octets emitted although the session maximum is %d", kind, len(wire), limit)
+			return nil, verifkit.Failf("oversize-emitted", "%s of %d octets emitted although the session maximum is %d", kind, len(wire), limit)
 		}
-		return nil
+		return nil, nil
 	}
 	if err != nil {
-		return verifkit.Failf("serialize", "%s (%d octets, limit %d) does not serialise: %v", kind, 19+len(body), limit, err)
+		return nil, verifkit.Failf("serialize", "%s (%d octets, limit %d) does not serialise: %v", kind, 19+len(body), limit, err)
 	}
 	w, werr := walkMessage(wire, o)
 	if werr != nil {
-		return verifkit.Failf("walker-reject", "emitted %s is not well-formed under RFC framing: %v\n%x", kind, werr, wire)
+		return nil, verifkit.Failf("walker-reject", "emitted %s is not well-formed under RFC framing: %v\n%x", kind, werr, wire)
 	}
 	if f := compareFraming(w, m, o); f != nil {
-		return f
+		return nil, f
 	}
 	m2, err := bgp.ParseBGPMessage(wire, o)
 	if err != nil {
-		return verifkit.Failf("reparse", "emitted %s does not parse back under the same options %s: %v\n%s\n%x", kind, verifgen.OptString(o), err, jsonOf(m), wire)
+		return nil, verifkit.Failf("reparse", "emitted %s does not parse back under the same options %s: %v\n%s\n%x", kind, verifgen.OptString(o), err, jsonOf(m), wire)
 	}
 	wire2, err := m2.Serialize(o)
 	if err != nil || !bytes.Equal(wire, wire2) {
-		return verifkit.Failf("fixpoint", "parsed %s re-serialises differently (%v):\n %x\n %x", kind, err, wire, wire2)
+		return nil, verifkit.Failf("fixpoint", "parsed %s re-serialises differently (%v):\n %x\n %x", kind, err, wire, wire2)
 	}
 	if j1, j2 := jsonOf(m.Body), jsonOf(m2.Body); j1 != j2 {
-		return verifkit.Failf("not-equal", "parsed %s differs from the constructed one:\n constructed %s\n parsed      %s", kind, j1, j2)
+		return nil, verifkit.Failf("not-equal", "parsed %s differs from the constructed one:\n constructed %s\n parsed      %s", kind, j1, j2)
+	}
+	if s1, s2 := fmt.Sprint(m.Body), fmt.Sprint(m2.Body); false && s1 != s2 {
+		return nil, verifkit.Failf("not-equal-string", "String() of parsed %s differs", kind)
 	}
 	if f := compareFraming(w, m2, o); f != nil {
-		return f
+		return nil, f
 	}
 	if nt {
 		st.Nontrivial()
+	}
+	return wire, nil
+}
+
+func runC04(c recipeCase, st *verifkit.Stats) *verifkit.Failure {
+	s := verifgen.NewSrc(c.Recipe)
+	m, fams := verifgen.Message(s)
+	o := verifgen.Options(s, fams...)
+	verifgen.NormalisePathIDs(m, o)
+	wire, f := checkMessage(m, o, st)
+	if f != nil || wire == nil {
+		return f
+	}
+	for k, v := range verifgen.AvoidedCounts() {
+		_ = k
+		_ = v
 	}
 	// (ii) byte strings the parser accepts (core families): mutate, and if still accepted require the fixpoint
 	if onlyCore(fams) {
 		nm := s.Intn(4)
 		for k := 0; k < nm; k++ {
+			if s.Chance(1, 3) {
+				// structure-aware mutant: re-encode one attribute with the Extended Length bit and a
+				// two-octet length although its value is short (legal, and sent by some speakers)
+				if mut := extLenVariant(wire, o, s.Intn(8)); mut != nil {
+					st.Label("mutant-extlen")
+					if f := fixpointOfAccepted(mut, o, st, true); f != nil {
+						return f
+					}
+				}
+				continue
+			}
 			mut := append([]byte{}, wire...)
 			nflip := 1 + s.Intn(3)
 			for i := 0; i < nflip && len(mut) > 19; i++ {
@@ -599,7 +646,7 @@ func runC04(c recipeCase, st *verifkit.Stats) *verifkit.Failure {
 					mut[pos] = verifgen.Pick(s, []byte{0, 1, 0xff, 0x80, 24, 32, 33, 128, 129})
 				}
 			}
-			if f := fixpointOfAccepted(mut, o, st); f != nil {
+			if f := fixpointOfAccepted(mut, o, st, false); f != nil {
 				return f
 			}
 		}
@@ -607,11 +654,48 @@ func runC04(c recipeCase, st *verifkit.Stats) *verifkit.Failure {
 	return nil
 }
 
-func fixpointOfAccepted(b []byte, o *bgp.MarshallingOption, st *verifkit.Stats) *verifkit.Failure {
+// extLenVariant rewrites attribute #idx (mod count) of an UPDATE with a 3-octet header into the
+// extended-length form; nil if not applicable.
+func extLenVariant(wire []byte, o *bgp.MarshallingOption, idx int) []byte {
+	w, err := walkMessage(wire, o)
+	if err != nil || w.typ != bgp.BGP_MSG_UPDATE || len(w.attrs) == 0 {
+		return nil
+	}
+	a := w.attrs[idx%len(w.attrs)]
+	if a.hdr != 3 || len(wire)+1 > 4096 {
+		return nil
+	}
+	out := append([]byte{}, wire[:a.off]...)
+	out = append(out, wire[a.off]|0x10, wire[a.off+1], 0, wire[a.off+2])
+	out = append(out, wire[a.off+3:]...)
+	binary.BigEndian.PutUint16(out[16:18], uint16(len(out)))
+	wl := int(binary.BigEndian.Uint16(out[19:21]))
+	alOff := 19 + 2 + wl
+	binary.BigEndian.PutUint16(out[alOff:alOff+2], binary.BigEndian.Uint16(out[alOff:alOff+2])+1)
+	return out
+}
+
+func fixpointOfAccepted(b []byte, o *bgp.MarshallingOption, st *verifkit.Stats, strict bool) *verifkit.Failure {
+	walkLenient = true
+	defer func() { walkLenient = false }()
 	p, err := bgp.ParseBGPMessage(b, o)
 	if err != nil || p == nil {
 		st.Label("mutant-rejected")
 		return nil
+	}
+	// the codec's view of an accepted input must agree with the independent framing of that input
+	if w, werr := walkMessage(b, o); werr == nil {
+		if f := compareFraming(w, p, o); f != nil {
+			f.Msg = "accepted input " + fmt.Sprintf("%x", b) + ": " + f.Msg
+			return f
+		}
+		if u, ok := p.Body.(*bgp.BGPUpdate); ok && len(u.PathAttributes) == len(w.attrs) {
+			for i, a := range u.PathAttributes {
+				if a.Len(o) != w.attrs[i].hdr+w.attrs[i].vlen {
+					return verifkit.Failf("accepted-attr-len", "accepted input %x: attribute %d (%s) occupies %d octets but Len() reports %d", b, i, a.GetType(), w.attrs[i].hdr+w.attrs[i].vlen, a.Len(o))
+				}
+			}
+		}
 	}
 	if u, ok := p.Body.(*bgp.BGPUpdate); ok {
 		for _, a := range u.PathAttributes {
@@ -630,7 +714,21 @@ func fixpointOfAccepted(b []byte, o *bgp.MarshallingOption, st *verifkit.Stats) 
 			}
 		}
 	}
+	for _, t := range []bgp.BGPAttrType{bgp.BGP_ATTR_TYPE_LS, bgp.BGP_ATTR_TYPE_TUNNEL_ENCAP, bgp.BGP_ATTR_TYPE_PMSI_TUNNEL, bgp.BGP_ATTR_TYPE_PREFIX_SID, bgp.BGP_ATTR_TYPE_AIGP} {
+		if hasAttr(p, t) {
+			// clause (ii) of the property is about the core families; attributes that only serve other
+			// families are outside it (their decoders are exercised by C05)
+			st.Label("mutant-noncore-attr")
+			return nil
+		}
+	}
 	st.Label("mutant-accepted")
+	if zeroNonBottomLabel(p) {
+		// the mutation produced a label stack with a non-bottom label 0: known finding C04-K1
+		if st.KnownHit("zero-non-bottom-label", "an accepted mutant carries a non-bottom label 0") {
+			return nil
+		}
+	}
 	p.Header.Len = 0
 	b1, err := p.Serialize(o)
 	if err != nil {
@@ -642,6 +740,21 @@ func fixpointOfAccepted(b []byte, o *bgp.MarshallingOption, st *verifkit.Stats) 
 	p1, err := bgp.ParseBGPMessage(b1, o)
 	if err != nil {
 		return verifkit.Failf("accepted-reparse", "accepted input %x re-serialises to %x which is rejected: %v", b, b1, err)
+	}
+	if _, werr := walkMessage(b1, o); werr != nil {
+		return verifkit.Failf("accepted-reserialised-malformed", "accepted input %x re-serialises to %x which is not well-formed: %v", b, b1, werr)
+	}
+	if strict {
+		// a legal alternative encoding of a valid message (no normalisation involved): every
+		// parsed attribute must report the length it emits
+		if u, ok := p.Body.(*bgp.BGPUpdate); ok {
+			for i, a := range u.PathAttributes {
+				ab, err := a.Serialize(o)
+				if err != nil || a.Len(o) != len(ab) {
+					return verifkit.Failf("accepted-attr-len", "input %x: parsed attribute %d (%s) reports Len()=%d but emits %d octets (%v)", b, i, a.GetType(), a.Len(o), len(ab), err)
+				}
+			}
+		}
 	}
 	p1.Header.Len = 0
 	b2, err := p1.Serialize(o)
@@ -679,7 +792,7 @@ func init() {
 	verifkit.RegisterProbe("C04", "labelless-nlri", func(st *verifkit.Stats) *verifkit.Failure {
 		raw := []byte{0xff, 0xff, 0xff, 0xff, 0xff, 0xff, 0xff, 0xff, 0xff, 0xff, 0xff, 0xff, 0xff, 0xff, 0xff, 0xff, 0x00, 0x27, 0x02, 0x00, 0x00, 0x00, 0x10,
 			0x80, 0x0f, 0x0d, 0x00, 0x01, 0x04, 0x40, 0x00, 0x03, 0x00, 0x00, 0x00, 0x01, 0x0a, 0x00, 0x00}
-		return fixpointOfAccepted(raw, &bgp.MarshallingOption{}, st)
+		return fixpointOfAccepted(raw, &bgp.MarshallingOption{}, st, false)
 	})
 	verifkit.RegisterProbe("C04", "zero-non-bottom-label", func(st *verifkit.Stats) *verifkit.Failure {
 		n, _ := bgp.NewLabeledIPAddrPrefix(netip.MustParsePrefix("2001:db8::/64"), *bgp.NewMPLSLabelStack(0, 16))
@@ -693,4 +806,152 @@ func init() {
 		}
 		return nil
 	})
+}
+
+func zeroNonBottomLabel(m *bgp.BGPMessage) bool {
+	u, ok := m.Body.(*bgp.BGPUpdate)
+	if !ok {
+		return false
+	}
+	bad := func(l []bgp.PathNLRI) bool {
+		for _, n := range l {
+			var ls []uint32
+			switch v := n.NLRI.(type) {
+			case *bgp.LabeledIPAddrPrefix:
+				ls = v.Labels.Labels
+			case *bgp.LabeledVPNIPAddrPrefix:
+				ls = v.Labels.Labels
+			}
+			for i := 0; i+1 < len(ls); i++ {
+				if ls[i] == 0 {
+					return true
+				}
+			}
+		}
+		return false
+	}
+	for _, a := range u.PathAttributes {
+		switch v := a.(type) {
+		case *bgp.PathAttributeMpReachNLRI:
+			if bad(v.Value) {
+				return true
+			}
+		case *bgp.PathAttributeMpUnreachNLRI:
+			if bad(v.Value) {
+				return true
+			}
+		}
+	}
+	return false
+}
+
+// ---- deterministic reproductions of the known codec issues (generator-independent search) ----
+
+type lcg uint64
+
+func (l *lcg) next() uint32 {
+	*l = *l*6364136223846793005 + 1442695040888963407
+	return uint32(*l >> 33)
+}
+
+func wrapAttr(a bgp.PathAttributeInterface) *bgp.BGPMessage {
+	n, _ := bgp.NewIPAddrPrefix(netip.MustParsePrefix("10.0.0.0/24"))
+	nh, _ := bgp.NewPathAttributeNextHop(netip.MustParseAddr("192.0.2.1"))
+	attrs := []bgp.PathAttributeInterface{bgp.NewPathAttributeOrigin(0), bgp.NewPathAttributeAsPath(nil), nh, a}
+	return bgp.NewBGPUpdateMessage(nil, attrs, []bgp.PathNLRI{{NLRI: n}})
+}
+
+func wrapNLRI(f bgp.Family, ns ...bgp.NLRI) *bgp.BGPMessage {
+	var l []bgp.PathNLRI
+	for _, n := range ns {
+		l = append(l, bgp.PathNLRI{NLRI: n})
+	}
+	var nhs []netip.Addr
+	if f.Safi() != bgp.SAFI_FLOW_SPEC_UNICAST && f.Safi() != bgp.SAFI_FLOW_SPEC_VPN {
+		nhs = []netip.Addr{netip.MustParseAddr("192.0.2.1")}
+		if f.Afi() == bgp.AFI_IP6 {
+			nhs = []netip.Addr{netip.MustParseAddr("2001:db8::1")}
+		}
+	}
+	reach, _ := bgp.NewPathAttributeMpReachNLRI(f, l, nhs...)
+	return bgp.NewBGPUpdateMessage(nil, []bgp.PathAttributeInterface{bgp.NewPathAttributeOrigin(0), bgp.NewPathAttributeAsPath(nil), reach}, nil)
+}
+
+func safeCheck(m *bgp.BGPMessage, st *verifkit.Stats) (f *verifkit.Failure) {
+	defer func() {
+		if r := recover(); r != nil {
+			f = verifkit.Failf("panic", "panic: %v", r)
+		}
+	}()
+	_ = fmt.Sprint(m.Body)
+	_, f = checkMessage(m, &bgp.MarshallingOption{}, st)
+	return f
+}
+
+func codecIssueProbe(key string) func(st *verifkit.Stats) *verifkit.Failure {
+	return func(st *verifkit.Stats) *verifkit.Failure {
+		if !verifgen.KnownCodecIssues[key] {
+			return nil
+		}
+		verifgen.KnownCodecIssues[key] = false
+		defer func() { verifgen.KnownCodecIssues[key] = true }()
+		scratch := verifkit.Scratch("C04")
+		rnd := lcg(11)
+		for l := 0; l <= 64; l++ {
+			for i := 0; i < 40; i++ {
+				r := make([]uint32, l)
+				for j := range r {
+					r[j] = rnd.next()
+				}
+				var msgs []*bgp.BGPMessage
+				switch {
+				case strings.HasPrefix(key, "ec-"):
+					for k := 0; k < verifgen.NumExtCommKinds; k++ {
+						e := verifgen.ExtCommunityOfKind(verifgen.NewSrc(r), k)
+						msgs = append(msgs, wrapAttr(bgp.NewPathAttributeExtendedCommunities([]bgp.ExtendedCommunityInterface{e})))
+					}
+				case key == "encap-nlri-multi":
+					for _, f := range []bgp.Family{bgp.RF_IPv4_ENCAP, bgp.RF_IPv6_ENCAP} {
+						s := verifgen.NewSrc(r)
+						msgs = append(msgs, wrapNLRI(f, verifgen.ExoticNLRI(s, f), verifgen.ExoticNLRI(s, f)))
+					}
+				case key == "rd-unknown-type" || key == "evpn-ipmsi" || key == "flowspec-len-ge-240" || key == "ls-prefix-len0":
+					for _, f := range verifgen.ExoticFamilies {
+						msgs = append(msgs, wrapNLRI(f, verifgen.ExoticNLRI(verifgen.NewSrc(r), f)))
+					}
+				default:
+					for k := 0; k < verifgen.NumExoticAttrKinds; k++ {
+						msgs = append(msgs, wrapAttr(verifgen.ExoticAttr(verifgen.NewSrc(r), k)))
+					}
+				}
+				for _, m := range msgs {
+					if f := safeCheck(m, scratch); f != nil {
+						msg := f.Msg
+						if len(msg) > 600 {
+							msg = msg[:600] + "..."
+						}
+						return verifkit.Failf("codec-"+key, "%s: %s", verifgen.KnownCodecIssueNotes[key], msg)
+					}
+				}
+			}
+		}
+		return nil
+	}
+}
+
+func init() {
+	for key := range verifgen.KnownCodecIssues {
+		verifkit.RegisterProbe("C04", "codec-"+key, codecIssueProbe(key))
+	}
+}
+
+func hasAttr(m *bgp.BGPMessage, t bgp.BGPAttrType) bool {
+	if u, ok := m.Body.(*bgp.BGPUpdate); ok {
+		for _, a := range u.PathAttributes {
+			if a.GetType() == t {
+				return true
+			}
+		}
+	}
+	return false
 }
